@@ -499,7 +499,33 @@ def h_nonstereogenic_dropped(V, smi):
     V.observe('s', str(m))
 
 
+def h_ring_size(V, falsify=False):
+    """a double bond (or an allene) inside a ring is a stereo element from ring size 8 on, and never below (the library's
+    documented rule; RDKit draws the same line): ring size and marks are solver-chosen"""
+    import chython
+    n = int(V.int('ring_size', 4, 11))
+    cis = bool(V.bool('cis'))
+    a = (n - 4) // 2
+    b = n - 4 - a
+    text = 'C1' + 'C' * a + '/C=C' + (chr(92) if cis else '/') + 'C' * b + 'C1'
+    m = chython.smiles(text)
+    labelled = any(bd.stereo is not None for *_, bd in m.bonds())
+    want = n >= 8
+    if falsify:
+        want = not want
+    info = {'text': text, 'ring_size': n}
+    V.prove(len(m) == n and labelled == want, 'an endocyclic double bond carries a cis/trans label exactly from ring size 8 on', info)
+    other = chython.smiles('C1' + 'C' * a + '/C=C' + ('/' if cis else chr(92)) + 'C' * b + 'C1')
+    V.prove((m == other) == (not want), 'cis and trans rings are different molecules exactly when the bond is a stereo element',
+            info)
+    if n >= 8:
+        from rdkit import Chem
+        V.prove(('/' in Chem.MolToSmiles(Chem.MolFromSmiles(text))) == labelled, 'RDKit keeps the configuration as well', info)
+    V.observe('text', text)
+
+
 HARNESSES = {
+    'ring_size': h_ring_size,
     'tetra_table': h_tetra_table, 'alkene_table': h_alkene_table,
     'translate_tetra': h_translate_tetra, 'add_read_tetra': h_add_read_tetra,
     'translate_ct': h_translate_ct, 'add_read_ct': h_add_read_ct, 'translate_allene': h_translate_allene,
@@ -529,6 +555,8 @@ NONSTEREO = ['C[C@H](C)O', 'F/C=C(/C)C', 'C[C@](C)(N)O', 'FC=[C@]=C(C)C']
 def jobs(tier):
     T = tier == 'thorough'
     J = []
+    J.append({'harness': 'ring_size', 'budget_s': 120})
+    J.append({'harness': 'ring_size', 'params': {'falsify': True}, 'twin': True, 'budget_s': 60, 'max_failures': 1})
     J.append({'harness': 'tetra_table', 'budget_s': 60})
     J.append({'harness': 'alkene_table', 'budget_s': 60})
     J.append({'harness': 'tetra_table', 'params': {'falsify': True}, 'twin': True, 'budget_s': 60})
